@@ -8,6 +8,7 @@ package pipeline
 // constructed here by holding the stream's own mutex while both callers arrive -- as the input's put or the heartbeat do.
 
 import (
+	"fmt"
 	"encoding/json"
 	"os"
 	"runtime"
@@ -196,6 +197,77 @@ func c04BlockedFlow(trial int, d time.Duration) c04StreamResult {
 	return res
 }
 
+// The heartbeat's copy of the blocked list goes stale (StreamProto / DESIGN D28): the stream is blocked for longer than the event
+// time-out; the heartbeat copies the blocked list; the next event arrives, the processor wakes up, takes it and goes on with it
+// (away, not committed: it sits in an output batch); only now does the heartbeat get to call tryUnblock for the stream of its
+// copy.  Nothing is wrong with that stream: tryUnblock must leave it alone (the pinned code panicked "why events are different?").
+func c04StaleBlockedCopy(trial int) (res c04StreamResult) {
+	res = c04StreamResult{Scenario: "stale-blocked-copy", Trial: trial}
+	defer func() {
+		if r := recover(); r != nil {
+			res.OK = false
+			res.What = fmt.Sprint("panic: ", r)
+		}
+	}()
+	sr := newStreamer(10 * time.Millisecond)
+	st := sr.getStream(StreamID(9000+trial), "s")
+	e1 := &Event{}
+	st.put(e1)
+	if c04JoinWithin(sr, 5*time.Second) != st {
+		res.What = "cannot attach to the charged stream"
+		return res
+	}
+	if st.instantGet() != e1 {
+		res.What = "wrong event"
+		return res
+	}
+	st.commit(e1) // held by a multi-line action: finalized at once, the processor waits for the next line of the stream
+	taken := make(chan *Event, 1)
+	go func() { taken <- st.blockGet() }()
+	// wait until the stream is in the blocked list, and longer than the event time-out
+	deadline := time.Now().Add(5 * time.Second)
+	for {
+		sr.blockedMu.Lock()
+		n := len(sr.blocked)
+		sr.blockedMu.Unlock()
+		if n == 1 || time.Now().After(deadline) {
+			break
+		}
+		time.Sleep(time.Millisecond)
+	}
+	time.Sleep(30 * time.Millisecond)
+	// the heartbeat's first step: the copy
+	sr.blockedMu.Lock()
+	copyOfBlocked := append([]*stream(nil), sr.blocked...)
+	sr.blockedMu.Unlock()
+	if len(copyOfBlocked) != 1 {
+		res.What = "the stream never got into the blocked list"
+		return res
+	}
+	// the next line arrives; the processor takes it and goes on (it is away and will be committed by the output later)
+	e2 := &Event{}
+	st.put(e2)
+	select {
+	case got := <-taken:
+		if got != e2 {
+			res.What = "the processor did not get the event that was put"
+			return res
+		}
+	case <-time.After(5 * time.Second):
+		res.What = "the blocked processor did not wake up"
+		return res
+	}
+	// the heartbeat's second step, on its stale copy
+	injected := copyOfBlocked[0].tryUnblock()
+	if injected {
+		res.What = "a time-out event was injected into a stream nobody is blocked on"
+		return res
+	}
+	st.commit(e2)
+	res.OK = true
+	return res
+}
+
 func TestVerifC04Stream(t *testing.T) {
 	out := os.Getenv("VERIF_OUT")
 	if out == "" {
@@ -207,6 +279,9 @@ func TestVerifC04Stream(t *testing.T) {
 		rs = append(rs, c04CommitWindow(100+trial, false))
 	}
 	rs = append(rs, c04CommitRace(0, 1500*time.Millisecond))
+	for trial := 0; trial < 3; trial++ {
+		rs = append(rs, c04StaleBlockedCopy(trial))
+	}
 	flow := 4 * time.Second
 	if os.Getenv("VERIF_TIER") == "thorough" {
 		flow = 15 * time.Second
